@@ -1,3 +1,4 @@
+import Ctap.Arb
 /-
   Specification-side tables, written by hand from the CTAP 2.0 / 2.1 / 2.2 specifications
   (authenticator API command codes, status codes, identifier spellings) and the FIDO U2F raw
@@ -130,5 +131,22 @@ def dispatch1 : List (String × String × Bool × String × Bool) := [
   ("Register", "register", true, "Register", true),
   ("Authenticate", "authenticate", true, "Authenticate", true),
   ("Version", "version", false, "Version", false)]
+
+end Spec
+
+/-! ### `arbitrary` feature (C19): the generator helpers and hand-written impls as they must be -/
+namespace Spec
+
+/-- lengths are clamped to the capacity before the `unwrap()`; the list loop runs at most `N` times -/
+def arbShape : ArbShape := ⟨true, true, 0⟩
+
+/-- type, number of fields, draws as (field index, draw).  Capacities are the receiving members'
+    (WebAuthn entity limits as implemented by ctap-types, `sizes.rs`). -/
+def arbImpls : List (String × Nat × List (Nat × Draw)) := [
+  ("webauthn::PublicKeyCredentialRpEntity", 3, [(0, .str 256), (1, .optStr 64), (2, .optUnit)]),
+  ("webauthn::PublicKeyCredentialUserEntity", 4, [(0, .bytes 64), (1, .optStr 128), (2, .optStr 64), (3, .optStr 64)]),
+  ("webauthn::FilteredPublicKeyCredentialParameters", 1, [(0, .vecChoose 2 [-7, -8])]),
+  ("ctap2::AttestationFormatsPreference", 2, [(0, .vecEnum 2 2), (1, .bool)]),
+  ("ctap2::get_assertion::HmacSecretInput", 4, [(0, .key), (1, .bytes 80), (2, .bytes 32), (3, .optU32)])]
 
 end Spec
